@@ -366,8 +366,9 @@ impl MutableArchive {
         let file_offset = self.get_archive_end_offset()?;
 
         // Compress the file data if requested
+        let file_pos = (file_offset - self.archive.archive_offset()) as u32;
         let (compressed_data, compressed_size, flags) =
-            self.prepare_file_data(data, &archive_name, &options)?;
+            self.prepare_file_data(data, &archive_name, &options, file_pos)?;
 
         // Write the file data to the archive
         self.file.seek(SeekFrom::Start(file_offset))?;
@@ -987,6 +988,7 @@ impl MutableArchive {
         data: &[u8],
         archive_name: &str,
         options: &AddFileOptions,
+        file_pos: u32,
     ) -> Result<(Vec<u8>, usize, u32)> {
         let mut flags = BlockEntry::FLAG_EXISTS;
         let mut output_data = data.to_vec();
@@ -1017,18 +1019,16 @@ impl MutableArchive {
 
         // Encrypt if requested
         if options.encrypt {
+            let base_key = hash_string(
+                crate::path::plain_file_name(archive_name),
+                hash_type::FILE_KEY,
+            );
             let key = if options.fix_key {
-                // For FIX_KEY, we need the block position
-                // This is a simplified version - real implementation would adjust by block
-                hash_string(
-                    crate::path::plain_file_name(archive_name),
-                    hash_type::FILE_KEY,
-                )
+                // FIX_KEY: the key is adjusted by the file position inside the archive and
+                // the uncompressed size, exactly as the reader derives it from the flag
+                (base_key.wrapping_add(file_pos)) ^ (data.len() as u32)
             } else {
-                hash_string(
-                    crate::path::plain_file_name(archive_name),
-                    hash_type::FILE_KEY,
-                )
+                base_key
             };
 
             // Remember original length before padding (reserved for future use)
